@@ -500,6 +500,9 @@ pub fn check_main(prop: &str, tier: &str) -> i32 {
         let inp = scratch.join(format!("shrink-{}.json", sanitize(&class)));
         let outp = scratch.join(format!("shrunk-{}.json", sanitize(&class)));
         let _ = std::fs::write(&inp, serde_json::to_string(&json!({"property": p, "class": bare_class, "known": f.known, "scenario": sc})).unwrap());
+        if let Ok(keep) = std::env::var("VERIF_KEEP_SHRINK_INPUT") {
+            let _ = std::fs::copy(&inp, format!("{keep}/{}", inp.file_name().unwrap().to_string_lossy()));
+        }
         let st = run_guarded(&exe, &["r-shrink", inp.to_str().unwrap(), outp.to_str().unwrap()], 180.0);
         let (final_sc, shrink_note) = match (st, std::fs::read_to_string(&outp).ok().and_then(|s| serde_json::from_str::<Value>(&s).ok())) {
             (Some(0), Some(v)) => (serde_json::from_value::<RScenario>(v["scenario"].clone()).unwrap_or(sc.clone()), format!("minimised in {} executions", v["execs"])),
@@ -669,6 +672,11 @@ pub fn shrink_main(inp: &str, outp: &str) -> i32 {
     } else {
         shrink(&sc, prop, class, &opts, 400)
     };
+    if std::env::var("VERIF_SHRINK_DEBUG").is_ok() {
+        for i in 0..3 {
+            eprintln!("final check {i}: {}", crate::engine_r::still_fails(&small, prop, class, &opts));
+        }
+    }
     std::fs::write(outp, serde_json::to_string(&json!({"scenario": small, "execs": execs})).unwrap()).unwrap();
     0
 }
@@ -759,6 +767,12 @@ pub fn replay_inner_main(path: &str, quiet: bool) -> i32 {
             return EXIT_HARNESS;
         }
     };
+    if let Ok(n) = std::env::var("VERIF_REPLAY_REPEAT") {
+        for i in 0..n.parse::<usize>().unwrap_or(1) {
+            let r = execute(&sc, &ExecOpts::default());
+            eprintln!("repeat {i}: {:?}", r.findings.iter().filter(|f| f.known.is_none()).map(|f| f.class.clone()).collect::<Vec<_>>());
+        }
+    }
     let rep = execute(&sc, &ExecOpts::default());
     if let Some(d) = &rep.discarded {
         println!("replay: scenario discarded: {d}");
